@@ -185,6 +185,8 @@ def run_case(ctx, case):
         tag += "-npflag"
     if case.get("kind") == "box-ulp":
         return run_box_ulp(ctx, case)
+    if case.get("pre_levels"):
+        tag += "-after-other-levels-on-the-same-instance"
     restore = None
     if case.get("kind") == "after-coefficient-update":
         restore = foreign_history(ctx, case)
@@ -280,6 +282,9 @@ def run_standard(ctx, case, tag):
             grid = TrapezoidalGrid(np.array(a), np.array(b), boundary=flag)
             op = Integration(F, grid=grid, dim=d)
             combi = StandardCombi(np.array(a), np.array(b), operation=op, print_output=False)
+            for (l0, l1) in case.get("pre_levels", []):
+                # history: the SAME instance (and its scheme object) first served other start levels (missed seed C02_8: scheme diagonals cached without lmin)
+                combi.perform_operation(l0, l1)
             scheme, _err, result = combi.perform_operation(lmin, lmax)
             st["result_live"] = result                                             # the object handed to the caller, NOT copied
             st["result"] = np.array(result, dtype=float).ravel()                   # copy taken at report time
@@ -490,6 +495,12 @@ def run(ctx):
     # boundary flag handed over as a numpy boolean
     for d, lmin, lmax, box, bnd in ((1, 1, 3, 1, False), (2, 1, 3, 0, False), (2, 1, 2, 3, True), (3, 1, 2, 2, False)):
         do_case(ctx, dict(build_case(d, lmin, lmax, box, bnd), np_flag=True))
+    # history: the same StandardCombi instance served other (lmin, lmax) before (a diagonal of the scheme recurs with another minimum level)
+    for d, lmin, lmax, pre, box, bnd in ((2, 2, 4, [(1, 3)], 0, True), (2, 1, 4, [(2, 4)], 1, False), (3, 2, 3, [(1, 2)], 2, True), (2, 1, 3, [(2, 4), (1, 2)], 3, True), (1, 2, 4, [(1, 3)], 0, True)):
+        if ctx.out_of_time(0.97):
+            ctx.exhaustive = False
+            break
+        do_case(ctx, dict(build_case(d, lmin, lmax, box, bnd), pre_levels=pre))
     # history: other instances of the same (dim, lmin, lmax) were used and their scheme objects overwritten in place before this instance
     hist = [(1, 1, 3), (2, 1, 2), (2, 1, 3), (2, 2, 4), (3, 1, 2), (3, 1, 3), (3, 2, 3)]
     if not quick:
